@@ -8,7 +8,24 @@ G64 == [g \in GN |-> CASE g = "all" -> 1..64
                        [] g = "one17" -> {17}
                        [] g = "tail" -> 48..64
                        [] g = "mid" -> 20..40]
+ObjF == [i \in 1..64 |-> i]
+\* interface instance: 12 variables x 12 methods (144 stubs of 48 bytes: more than one page of stub space); target (v, m) = (v - 1) * 12 + m
+NI == 144
+VarOf(i) == ((i - 1) \div 12) + 1
+MethOf(i) == ((i - 1) % 12) + 1
+ObjI == [i \in 1..NI |-> VarOf(i)]
+GNI == {"all", "meth1", "meth12", "var7", "vars9", "diag", "oddvars", "two"}
+GI == [g \in GNI |-> CASE g = "all" -> 1..NI
+                        [] g = "meth1" -> {i \in 1..NI : MethOf(i) = 1}
+                        [] g = "meth12" -> {i \in 1..NI : MethOf(i) = 12}
+                        [] g = "var7" -> {i \in 1..NI : VarOf(i) = 7}
+                        [] g = "vars9" -> {i \in 1..NI : VarOf(i) <= 9 /\ MethOf(i) \in {2, 7}}
+                        [] g = "diag" -> {i \in 1..NI : MethOf(i) = ((VarOf(i) - 1) % 12) + 1}
+                        [] g = "oddvars" -> {i \in 1..NI : VarOf(i) % 2 = 1 /\ MethOf(i) \in {1, 6, 12}}
+                        [] g = "two" -> {i \in 1..NI : VarOf(i) \in {3, 12} /\ MethOf(i) \in {5, 11}}]
 \* a small instance for exhaustive model checking of the requirement itself
 GNs == {"all", "lo", "one"}
 G4 == [g \in GNs |-> CASE g = "all" -> 1..4 [] g = "lo" -> 1..2 [] g = "one" -> {3}]
+Obj4 == [i \in 1..4 |-> i]
+Obj4I == [i \in 1..4 |-> (i + 1) \div 2]          \* two objects of two targets each
 ====
